@@ -133,8 +133,8 @@ Proof. exact splice_drop_lazy_example. Qed.
 (* ---- histories ---- *)
 From AV.Model Require Import Interp.
 From AV.Spec Require Import WorldSpec.
-From AV.Proofs Require Import WorldProofs.
-(** WHOLE HISTORIES: a lazy clone of an element of another vector (any nesting depth) offered to push or insert - erased or typed path - is a step of the history fragment of AV.Props.C01 ([WorldSpec.sp_offer_lazy]): exactly one Clone call, at the moment of consumption, of exactly the source element's current value; the destination receives the NEW value at the right place, the source vector is untouched; an offer that is refused (source index, insertion index, full fixed capacity) clones nothing.  [C09_lazy_offer_in_histories] proves that the byte-level machine does this at any point of any history (on top of [C09_push] / [C09_insert] through [C09_raw_action_clone]).  The same holds for a lazy clone of a value the CALLER owns (a user-defined cloneable value whose Type is the concrete element type - the only lazily cloned source with a known static type): [WorldSpec.sp_offer_userlazy], [C09_user_lazy_offer_in_histories]; and for lazy clones of a removal handle that are downcast (a new value each time, destroyed by the caller) before the handle is consumed: sink [KLazyDown] of [WorldSpec.sp_sink] (C01_sinks_in_histories).  Lazy clones of handles pushed into other vectors, of drained elements, and lazy clones consumed by splice remain one-step theorems + correspondence. *)
+From AV.Proofs Require Import WorldMore WorldProofs.
+(** WHOLE HISTORIES: a lazy clone of an element of another vector (any nesting depth) offered to push or insert - erased or typed path - is a step of the history fragment of AV.Props.C01 ([WorldSpec.sp_offer_lazy]): exactly one Clone call, at the moment of consumption, of exactly the source element's current value; the destination receives the NEW value at the right place, the source vector is untouched; an offer that is refused (source index, insertion index, full fixed capacity) clones nothing.  [C09_lazy_offer_in_histories] proves that the byte-level machine does this at any point of any history (on top of [C09_push] / [C09_insert] through [C09_raw_action_clone]).  The same holds for a lazy clone of a value the CALLER owns (a user-defined cloneable value whose Type is the concrete element type - the only lazily cloned source with a known static type): [WorldSpec.sp_offer_userlazy], [C09_user_lazy_offer_in_histories]; and for lazy clones of a removal handle that are downcast (a new value each time, destroyed by the caller) before the handle is consumed: sink [KLazyDown] of [WorldSpec.sp_sink] (C01_sinks_in_histories).  Lazy clones of another vector's elements consumed by splice as replacement items are a step of the fragment too ([WorldSpec.sp_splice_lazy], [C09_lazy_splice_in_histories]): exactly min(announced, yielded) Clone calls, in order, each of the source element the item was made from, after the drained range is destroyed; a forgotten splice clones nothing and leaks no replacement value; an empty source panics before the range is touched.  Lazy clones of drained elements remain one-step theorems + correspondence. *)
 Theorem C09_raw_action_clone :
   forall (c : cfg) (vv : vec) (a : avec) (u : uw) (idx : option N) (bs : mem) (t0 : N) (k : bool),
          cfg_wf c ->
@@ -190,6 +190,18 @@ Theorem C09_lazy_down_in_histories :
          sp_lazy_down c st (unext (wuw w)) v idx = Some r -> res_matches c w (exec c (OLazyDown d v idx) w) r.
 Proof. exact exec_lazy_down. Qed.
 
+(** splice(range, (0..n).map(|i| src.at(i % len).lazy_clone())) as a step of any history, with any announced length: the clones are made when the items are written into the gap - one Clone each, of exactly the source element - the source vector is untouched; too long for the backend: refused, no Clone at all *)
+Theorem C09_lazy_splice_in_histories :
+  forall (c : cfg) (w : world) (st : astate) (a : api) (vid : nat) (sb eb : Ops.bound)
+           (pat : list (bool * sink)) (f : fin) (src : nat) (n claimed : N) (r : sres),
+         cfg_wf c ->
+         WRep c w st ->
+         ufuse (wuw w) = None ->
+         sp_splice_lazy c st (unext (wuw w)) vid sb eb pat f src n claimed = Some r ->
+         adm_splice c w vid sb eb claimed ->
+         res_matches c w (exec c (OSplice a vid sb eb pat f (RLazy src) n None claimed) w) r.
+Proof. exact exec_splice_lazy. Qed.
+
 (* ---- end histories ---- *)
 Print Assumptions C09_push.
 Print Assumptions C09_insert.
@@ -201,3 +213,4 @@ Print Assumptions C09_raw_action_clone.
 Print Assumptions C09_lazy_offer_in_histories.
 Print Assumptions C09_user_lazy_offer_in_histories.
 Print Assumptions C09_lazy_down_in_histories.
+Print Assumptions C09_lazy_splice_in_histories.
